@@ -38,6 +38,7 @@ type RunResult struct {
 	Infra        string          `json:"infra,omitempty"`
 	Inconclusive int             `json:"inconclusive,omitempty"`
 	Log          []string        `json:"log,omitempty"`
+	Extra        map[string]any  `json:"extra,omitempty"` // engine-specific part of the evidence sample (fault trace, schedule)
 }
 
 // PropDef describes how one property is checked.
@@ -193,8 +194,9 @@ func WorkerMain(propID, tier string, baseSeed uint64, start, stride int64, deadl
 		plan := def.Gen(def, tier, seed, run)
 		res := def.RunPlan(def, plan, scratch)
 		if run < 3*stride && run/stride < 3 {
-			res.Sample, _ = json.Marshal(samplePlan(plan))
+			res.Sample, _ = json.Marshal(map[string]any{"plan": samplePlan(plan), "explored": res.Extra})
 		}
+		res.Extra = nil
 		if err := enc.Encode(res); err != nil {
 			return 2
 		}
